@@ -1,27 +1,49 @@
-(* Props/C09.v — C09: extraction never creates, modifies or links anything outside the output directory.
+(* Props/C09.v — C09: extraction never creates, modifies, deletes or links anything outside the output directory.
 
    Name half (full strength, every string): every EntryName constructor and the FHED parser go through
    sanitize_name (validated against all of them by the codec harness), whose result has only Normal
    components, no root, and is a fixed point; joined to the output directory it stays lexically inside.
 
-   On-disk half, for the model of the REPAIRED extract_entry (Model/Extract.v, o_guarded = true) on the
-   abstract file system of Model/Fs.v (symbolic-link resolution, hard-link aliasing):
-     * C09_resolution_literal_(no)follow: resolving a path none of whose proper ancestors is a symbolic link ends
-       at that literal path — the reason why the ancestor check of the repaired code is sufficient;
-     * C09_extract_confined_partial: for EVERY archive of file and directory entries (any names, any
-       metadata, with or without --overwrite / keep options) extracted into an output directory that is
-       not reached through a link, holds no symbolic link and shares no inode with the outside, no path
-       outside the output directory changes its observation, and the output directory stays a directory;
+   On-disk half (full strength, every archive), for the model of the REPAIRED extract_entry (Model/Extract.v,
+   o_guarded = true: fixes 97074278, 259caa04, ebe5bb91, 8d2298f1) on the abstract file system of Model/Fs.v
+   (symbolic-link resolution in every component, hard-link aliasing through an inode table):
+     * C09_extract_confined: for EVERY archive — file, directory, symbolic-link (any target: absolute, `..`,
+       dangling, to directories) and hard-link entries (any stored source), in any order, names arbitrary byte
+       strings, with or without --overwrite, with --keep-permission / --keep-timestamp / --keep-xattr — and for
+       EVERY initial file system satisfying the four premises below, no path outside the output directory
+       changes its observation (node kind, inode, content, mode, mtime, write stamp, xattrs, link target; so:
+       nothing is created, changed, re-moded, or removed there).  The output directory may already contain
+       symbolic links to anywhere (planted by an earlier entry, an earlier run, or anybody else) and hard
+       links among its own files; entries beneath such links are refused, a link at the destination itself is
+       replaced, never followed (also not by chmod: W3).
+     * C09_hardlinks_stay_inside: after the extraction no inode has a name inside and a name outside the
+       output directory (the W2 escape pulled an outside file IN); C09_hardlink_source_literal: the source the
+       repaired code hands to link(2) resolves to its literal path below the output directory.
+     * C09_check_sound: what ensure_no_symlink_ancestor establishes — the destination resolves (lstat) to its
+       literal path — in every state satisfying the premises, whoever planted the links.
+     * C09_extract_keeps_invariant, C09_out_dir_survives: the premises hold again afterwards (so repeated
+       extractions are confined, too) and the output directory is still a directory.
+     * Premises on the initial state, each one necessary in the model (C09_premises_needed gives, for each, a
+       state violating only that one and an archive that escapes), all decidable (C09_invariant_decidable):
+         dirchain   the output directory and every directory on the way to it are real directories (it is not
+                    reached through a symbolic link — otherwise it IS somewhere else);
+         tree_under below the output directory only directories have children (true of every real file system;
+                    it is what makes "lstat fails" mean "nothing there" rather than "a link hidden below");
+         sep        no file inside the output directory is hard-linked to a file outside it BEFORE the extraction
+                    (File::create truncates an existing file in place, --overwrite would write through it);
+         fresh      the inode allocator does not hand out a number in use.
+     * C09_resolution_literal_(no)follow: the file-system lemma underneath — a path none of whose proper
+       ancestors is a symbolic link resolves to itself.
      * C09_unguarded_escapes_w1 / _w2: the code before the repairs, in the same model, escapes with the two
-       recorded witnesses (file created through an extracted link; outside inode linked in), so the model
-       of the file system is not vacuous; C09_guarded_refuses: the repaired code refuses both.
-   NOT proved (partial): confinement for archives that contain symbolic-link or hard-link entries, and
-   for output directories that already contain links.  The argument is the same (the ancestor check
-   establishes the premise of C09_resolution_literal_(no)follow), but needs a tree-shape invariant of the name map
-   threaded through every call; that part rests on the correspondence runs (crafted archives with every
-   link kind, 300 / 8 000 extractions compared with the model's predicted set of changed paths).
-   Outside the model: the kernel's actual path resolution, races with a concurrent writer. *)
-From PNA Require Import Base Name Fs Extract ExtractRun BaseFacts NameFacts ExtractFacts.
+       recorded witnesses, so the model is not vacuous; C09_guarded_refuses: the repaired code refuses both;
+       C09_premises_satisfiable: a state with hostile pre-existing links satisfies the premises, a hostile
+       archive (absolute and `..` names, a symbolic link with a mode, a link planted for later, a file over a
+       dangling link, hard links) is extracted entirely below the output directory, and six archives that try
+       to go through planted / pre-existing links or to link an outside file in are refused without a trace.
+   Outside the model: the kernel's actual path resolution (validated by the differential runs of props/C09.py
+   only), ownership (chown follows the same path as chmod in the code), ACLs, races with a concurrent writer
+   between the check and the use (the check is not atomic with the call). *)
+From PNA Require Import Base Name Fs Extract ExtractRun BaseFacts NameFacts ExtractFacts ConfineFacts.
 Open Scope N_scope.
 
 Theorem C09_sanitize_safe : forall s,
@@ -71,20 +93,87 @@ Theorem C09_resolution_literal_follow : forall fuel m comps cur c',
 Proof. exact walk_guard_follow. Qed.
 Print Assumptions C09_resolution_literal_follow.
 
-Theorem C09_extract_confined_partial : forall out, Forall plain out -> out <> [] ->
-  forall o arch f0, o_guarded o = true -> J out f0 -> Forall file_or_dir arch ->
+Theorem C09_extract_confined : forall out, Forall plain out -> out <> [] ->
+  forall o arch f0, o_guarded o = true ->
+  dirchain out (names f0) -> tree_under out (names f0) -> sep out (names f0) -> fresh f0 ->
   forall p, mutated f0 (extract_all o out arch f0) p -> under out p.
-Proof. exact extract_confined_files_dirs. Qed.
-Check C09_extract_confined_partial : forall out, Forall plain out -> out <> [] ->
-  forall o arch f0, o_guarded o = true -> J out f0 -> Forall file_or_dir arch ->
+Proof. exact extract_confined_explicit. Qed.
+Check C09_extract_confined : forall out, Forall plain out -> out <> [] ->
+  forall o arch f0, o_guarded o = true ->
+  dirchain out (names f0) -> tree_under out (names f0) -> sep out (names f0) -> fresh f0 ->
   forall p, mutated f0 (extract_all o out arch f0) p -> under out p.
-Print Assumptions C09_extract_confined_partial.
+Print Assumptions C09_extract_confined.
 
-Theorem C09_out_dir_survives_partial : forall out, Forall plain out -> out <> [] ->
-  forall o arch f0, o_guarded o = true -> J out f0 -> Forall file_or_dir arch ->
+Theorem C09_hardlinks_stay_inside : forall out, Forall plain out -> out <> [] ->
+  forall o arch f0, o_guarded o = true ->
+  dirchain out (names f0) -> tree_under out (names f0) -> sep out (names f0) -> fresh f0 ->
+  forall p q i, nget (names (extract_all o out arch f0)) p = Some (DFile i) ->
+                nget (names (extract_all o out arch f0)) q = Some (DFile i) -> under out p -> under out q.
+Proof. exact hardlinks_stay_inside_explicit. Qed.
+Check C09_hardlinks_stay_inside : forall out, Forall plain out -> out <> [] ->
+  forall o arch f0, o_guarded o = true ->
+  dirchain out (names f0) -> tree_under out (names f0) -> sep out (names f0) -> fresh f0 ->
+  forall p q i, nget (names (extract_all o out arch f0)) p = Some (DFile i) ->
+                nget (names (extract_all o out arch f0)) q = Some (DFile i) -> under out p -> under out q.
+Print Assumptions C09_hardlinks_stay_inside.
+
+(* the source of the link(2) call: resolved lexically (resolve_link_source), checked like the destination,
+   and still literal after the removals --overwrite performs between the check and the call *)
+Theorem C09_hardlink_source_literal : forall out, Forall plain out ->
+  forall f comps src s, Inv out f -> Forall plain comps ->
+  link_source comps src = Some s -> no_link_anc f out s = true ->
+  forall f', keeps f f' -> forall c, resolve f' (out ++ s) false = Some c -> c = out ++ s.
+Proof. exact hardlink_source_literal. Qed.
+Check C09_hardlink_source_literal : forall out, Forall plain out ->
+  forall f comps src s, Inv out f -> Forall plain comps ->
+  link_source comps src = Some s -> no_link_anc f out s = true ->
+  forall f', keeps f f' -> forall c, resolve f' (out ++ s) false = Some c -> c = out ++ s.
+Print Assumptions C09_hardlink_source_literal.
+
+Theorem C09_check_sound : forall out, Forall plain out ->
+  forall f comps c, Inv out f -> Forall plain comps -> no_link_anc f out comps = true ->
+  resolve f (out ++ comps) false = Some c -> c = out ++ comps.
+Proof. exact check_sound. Qed.
+Check C09_check_sound : forall out, Forall plain out ->
+  forall f comps c, Inv out f -> Forall plain comps -> no_link_anc f out comps = true ->
+  resolve f (out ++ comps) false = Some c -> c = out ++ comps.
+Print Assumptions C09_check_sound.
+
+Theorem C09_extract_keeps_invariant : forall out, Forall plain out -> out <> [] ->
+  forall o arch f0, o_guarded o = true -> Inv out f0 -> Inv out (extract_all o out arch f0).
+Proof. exact extract_keeps_inv. Qed.
+Check C09_extract_keeps_invariant : forall out, Forall plain out -> out <> [] ->
+  forall o arch f0, o_guarded o = true -> Inv out f0 -> Inv out (extract_all o out arch f0).
+Print Assumptions C09_extract_keeps_invariant.
+
+Theorem C09_out_dir_survives : forall out, Forall plain out -> out <> [] ->
+  forall o arch f0, o_guarded o = true -> Inv out f0 ->
   exists md, nget (names (extract_all o out arch f0)) out = Some (DDir md).
-Proof. exact extract_keeps_out_dir. Qed.
-Print Assumptions C09_out_dir_survives_partial.
+Proof. exact out_dir_survives. Qed.
+Check C09_out_dir_survives : forall out, Forall plain out -> out <> [] ->
+  forall o arch f0, o_guarded o = true -> Inv out f0 ->
+  exists md, nget (names (extract_all o out arch f0)) out = Some (DDir md).
+Print Assumptions C09_out_dir_survives.
+
+(* Inv out f is exactly the conjunction of the four premises, and a boolean function decides it *)
+Theorem C09_invariant_decidable : forall out f, invb out f = true ->
+  (dirchain out (names f) /\ tree_under out (names f) /\ sep out (names f)) /\ fresh f.
+Proof. exact invb_sound. Qed.
+Check C09_invariant_decidable : forall out f, invb out f = true -> Inv out f.
+Print Assumptions C09_invariant_decidable.
+
+(* each premise is needed: a state violating only that one (the other three checked), and an escaping archive *)
+Theorem C09_premises_needed :
+  ((dirchainb w_out (names fs_shared) && tree_underb w_out (names fs_shared) && freshb fs_shared)%bool = true /\
+   escapes over_opts [ mk_xentry (lit "f") 0 (lit "new") None None [] ] fs_shared) /\
+  ((dirchainb w_out (names fs_not_tree) && sepb w_out (names fs_not_tree) && freshb fs_not_tree)%bool = true /\
+   escapes guarded_opts [ mk_xentry (lit "a/b/x") 0 (lit "pwn") None None [] ] fs_not_tree) /\
+  ((dirchainb w_out (names fs_stale_next) && tree_underb w_out (names fs_stale_next) && sepb w_out (names fs_stale_next))%bool = true /\
+   escapes guarded_opts [ mk_xentry (lit "new") 0 (lit "pwn") None None [] ] fs_stale_next) /\
+  ((tree_underb w_out (names fs_out_is_link) && sepb w_out (names fs_out_is_link) && freshb fs_out_is_link)%bool = true /\
+   escapes guarded_opts [ mk_xentry (lit "x") 0 (lit "data") None None [] ] fs_out_is_link).
+Proof. exact (conj sep_needed (conj tree_needed (conj fresh_needed dirchain_needed))). Qed.
+Print Assumptions C09_premises_needed.
 
 Theorem C09_unguarded_escapes_w1 :
   exists p, mutated w_fs0 (extract_all unguarded_opts w_out w1 w_fs0) p /\ ~ under w_out p.
@@ -106,10 +195,19 @@ Theorem C09_guarded_refuses :
 Proof. exact (conj guarded_refuses_w1 guarded_refuses_w2). Qed.
 Print Assumptions C09_guarded_refuses.
 
-(* the premises of the confinement theorem are met by a concrete state and archive with hostile names *)
+(* the premises of the confinement theorems are met by a state whose output directory already holds links to
+   the outside, and by hostile archives: one accepted (everything lands below out), six refused without a trace *)
 Theorem C09_premises_satisfiable :
-  Forall plain w_out /\ w_out <> [] /\ J w_out w_fs0 /\ Forall file_or_dir w_file /\
-  snd (extract_run guarded_opts w_out w_file w_fs0) = true /\
-  observe (extract_all guarded_opts w_out w_file w_fs0) [lit "S"; lit "out"; lit "d"] = ODir 448.
-Proof. exact confinement_premises. Qed.
+  Forall plain w_out /\ w_out <> [] /\ o_guarded over_opts = true /\ Inv w_out w_fs1 /\
+  snd (extract_run over_opts w_out w_hostile_ok w_fs1) = true /\
+  (exists i n, observe (extract_all over_opts w_out w_hostile_ok w_fs1) [lit "S"; lit "out"; lit "x"] = OFile i n /\
+               nget (names (extract_all over_opts w_out w_hostile_ok w_fs1)) [lit "S"; lit "out"; lit "sub"; lit "hl"] = Some (DFile i)) /\
+  observe (extract_all over_opts w_out w_hostile_ok w_fs1) [lit "S"; lit "out"; lit "l"] = OLink (lit "../elsewhere/victim") /\
+  observe (extract_all over_opts w_out w_hostile_ok w_fs1) [lit "S"; lit "out"; lit "prefl"] = ODir 448 /\
+  (exists i n, observe (extract_all over_opts w_out w_hostile_ok w_fs1) [lit "S"; lit "out"; lit "predang"] = OFile i n) /\
+  observe (extract_all over_opts w_out w_hostile_ok w_fs1) [lit "S"; lit "elsewhere"; lit "victim"]
+    = observe w_fs1 [lit "S"; lit "elsewhere"; lit "victim"] /\
+  forallb (fun a => refused over_opts a && refused guarded_opts a)
+    [ w_beneath_planted; w_beneath_pre; w_beneath_pre2; w_hl_dotdot; w_hl_abs; w_hl_through ] = true.
+Proof. exact confinement_premises_full. Qed.
 Print Assumptions C09_premises_satisfiable.
